@@ -1,7 +1,7 @@
 """C16 - fitted panel estimators treat instances independently and ignore the container."""
 from fractions import Fraction as Fr
 
-from harness.core import clist, cnat, copt, cq
+from harness.core import clist, cnat, copt, cq, cz
 
 ID = "C16"
 MODEL_TARGETS = ["C16/Cases.vo"]
@@ -216,7 +216,8 @@ def _gen_learned(rng, est):
          "n_train": rng.choice([8, 10, 12]), "n_test": rng.choice([3, 4, 5, 5, 6]),
          "m": rng.choice([12, 16, 20, 24]), "ncols": 1, "k": rng.choice([2, 2, 3]),
          "noise": rng.choice([0.2, 0.6, 1.2]), "colnames": rng.choice(["var", "dim"]),
-         "dup": rng.random() < 0.25, "labels": rng.choice(["range", "shuffled"]), "round": None}
+         "dup": rng.random() < 0.25, "labels": rng.choice(["range", "shuffled"]), "round": None,
+         "ylabels": rng.choice(["int", "int", "str"])}
     cfg = {}
     if est == "sax":
         cfg = {"word_length": rng.choice([2, 4]), "alphabet_size": rng.choice([3, 4]),
@@ -234,6 +235,8 @@ def _gen_learned(rng, est):
     elif est == "plateau":
         c["round"] = 0
         cfg = {"value": rng.choice([0.0, 1.0, -1.0]), "min_length": rng.choice([1, 2])}
+    elif est == "dslope":
+        c["ncols"] = rng.choice([1, 2])
     elif est == "dwt":
         cfg = {"num_levels": rng.choice([0, 1, 2, 3])}
         c["ncols"] = rng.choice([1, 2])
@@ -292,11 +295,11 @@ def gen_cases(rng, tier):
     cases = []
     mult = 1 if tier == "quick" else 12
     for t in CLOSED:
-        for _ in range(11 * mult):
+        for _ in range(22 * mult):
             cases.append(_gen_closed(rng, t))
     slow = {"shapelet", "cshapelet", "stsf", "muse"}
     for est in LEARNED_T + LEARNED_C + LEARNED_R:
-        for _ in range((2 if est in slow else 4) * mult):
+        for _ in range((3 if est in slow else 7) * mult):
             cases.append(_gen_learned(rng, est))
     return cases
 
@@ -407,6 +410,8 @@ def _problem(case):
     if case.get("dup") and len(te) >= 2:
         te[-1] = [list(s) for s in te[0]]
     ytr = np.array(ctr)
+    if case.get("ylabels") == "str":
+        ytr = np.array([["b", "a", "C"][c] for c in ctr])
     yreg = r.normal(size=case["n_train"]) * 3
     return tr, ytr, yreg, te
 
@@ -952,7 +957,7 @@ def _cpanel(p):
 
 
 def _cipanel(rows):
-    return clist([clist([clist([cnat(i) for i in cell]) for cell in row]) for row in rows])
+    return clist([clist([clist([cz(i) for i in cell]) for cell in row]) for row in rows])
 
 
 def _cidx(idx):
